@@ -9,6 +9,7 @@ def dispatch (toks : List String) : String :=
   | "c01" :: rest => Pb.Drv.C01.handle rest
   | "c02" :: rest => Pb.Drv.C02.handle rest
   | "c10" :: rest => Pb.Drv.C10.handle rest
+  | "c12" :: rest => Pb.Drv.C12.handle rest
   | _ => "bad-prop"
 
 partial def loop (h : IO.FS.Stream) (out : IO.FS.Stream) : IO Unit := do
